@@ -28,7 +28,9 @@ P = {
     'rule': 'coinomics driver, per 25 cases: 20 histories of 1-8 blocks (supply and bonded pool set with real bank operations; block times '
             'at year boundaries 2023/24/25, 2100, 2400, leap days, the epoch, year 0/1, random; elapsed 0, negative, 1 ms .. more than a year; '
             'bonded 0 .. 2^120; coefficient 0, 10^-18, 7.8, 100, large, negative; max supply at landing point -1/0/+1, at/below the supply, 0, '
-            'mainnet; disabled / first block; parameter changes between blocks), 1 history at the edge of the 315-bit decimal range (panic '
+            'mainnet; disabled / first block; parameter changes between blocks incl. minting switched off and on again — about 70 re-activations per quick run), '
+            'the oracle is history-aware: the reference time of a block is the PREVIOUS BLOCK\'s time and a block that follows a block with minting off is a first block '
+            'after activation whatever the store holds (F11: /repo before 81b5da1 minted for the whole disabled period there), 1 history at the edge of the 315-bit decimal range (panic '
             'expected by the model), 4 year-only cases (Year() over the whole int64 ms range); declib: one LegacyDec call each. '
             'non-trivial = at least one block minted a formula amount or the remainder; distinct = distinct inputs',
     'trusted_base': [
